@@ -14,6 +14,7 @@ import (
 	"os"
 	"runtime"
 	"sort"
+	"strings"
 	"sync"
 	"sync/atomic"
 )
@@ -471,7 +472,22 @@ func (e *Explorer) Explore() *Stats {
 					continue
 				}
 				c := &Ctx{Tier: e.Tier, Seed: e.Seed, prefix: prefix, st: ls, h: h, Verbose: e.Verbose}
-				h.runOnce(c)
+				func() {
+					// A panic of an in-process execution - in the code under test, or in harness set-up that
+					// drives it (building and signing the artifacts through the library) - is a finding of
+					// this execution, not a reason to lose the whole run.  (On the unchanged tree nothing
+					// panics; isolated harnesses get the same through their watchdog.)
+					defer func() {
+						if r := recover(); r != nil {
+							msg := fmt.Sprint(r)
+							if i := strings.IndexByte(msg, '\n'); i >= 0 {
+								msg = msg[:i]
+							}
+							c.Fail(h.Name+":panic:"+ClassOf(msg), "the execution panicked (code under test, or harness set-up driving it)", fmt.Sprintf("choice vector %v", c.trace), "no panic", msg)
+						}
+					}()
+					h.runOnce(c)
+				}()
 				if len(c.trace) < len(prefix) && len(c.viol) == 0 {
 					// (an execution that reported a violation may stop early: code under
 					// test with hidden global state legitimately diverges from the
